@@ -213,6 +213,15 @@ def merge_repeated_kwargs(params: List[TagParam]) -> List[TagParam]:
             # NOTE: Position in `resolved_params`, which is shorter than `params` once a kwarg was merged
             param_indices_by_key[param.key] = len(resolved_params)
             resolved_params.append(param)
+        # Case: A kwarg is repeated, but one of the values is `None` or `False`, which mean "no value",
+        # so there is nothing to merge - we keep the other value as it is.
+        elif param.value is None or param.value is False:
+            continue
+        elif params_by_key[param.key].value is None or params_by_key[param.key].value is False:
+            orig_param_index = param_indices_by_key[param.key]
+            param_copy = TagParam(key=param.key, value=param.value)
+            resolved_params[orig_param_index] = param_copy
+            params_by_key[param.key] = param_copy
         # Case: A kwarg is repeated - we merge the values into a single string, with a space in between.
         else:
             # We want to avoid mutating the items of the original list in place.
